@@ -236,6 +236,7 @@ package check
 //@   ensures[percent] implies(op == t.IDXBinaryPercent && result1 == nil && old(factsHold(q)) && inB(lb, wval(lhs)), wval(lhs) >= 0 && wval(rhs) > 0 && inB(result0, emod(wval(lhs), wval(rhs))))
 //@   ensures[shl] implies(op == t.IDXBinaryShiftL && result1 == nil && old(factsHold(q)) && inR(lb, wval(lhs)), wval(rhs) >= 0 && inR(result0, wval(lhs) * pow2(wval(rhs))))
 //@   ensures[cmp] implies(isCmp(op) && result1 == nil, result0[0] == zero && result0[1] == one)
+//@   ensures[facts] unchanged(q.facts) && unchanged(mem(q.facts))
 //@   assume@after TryLsh#2 implies(result1, result0[0] != nil && result0[1] != nil)
 //@   assert@ret#12 [modshl] implies(op == t.IDXBinaryTildeModShiftL && result1 == nil && typeBounds[1] != nil && old(factsHold(q)) && inR(lb, wval(lhs)) && 0 <= wval(lhs), inR(result0, emod(wval(lhs) * pow2(wval(rhs)), bigval(typeBounds[1]) + 1)))
 //@   assert@ret#13 [modshl] implies(op == t.IDXBinaryTildeModShiftL && result1 == nil && typeBounds[1] != nil && old(factsHold(q)) && inR(lb, wval(lhs)) && 0 <= wval(lhs), inR(result0, emod(wval(lhs) * pow2(wval(rhs)), bigval(typeBounds[1]) + 1)))
@@ -264,6 +265,7 @@ package check
 //@   ensures[star] implies(op == t.IDXBinaryStar && result1 == nil && old(factsHold(q)), inR(result0, wval(lhs) * wval(rhs)))
 //@   ensures[slash] implies(op == t.IDXBinarySlash && result1 == nil && old(factsHold(q)), wval(lhs) >= 0 && wval(rhs) > 0 && inR(result0, wval(lhs) / wval(rhs)))
 //@   ensures[shl] implies(op == t.IDXBinaryShiftL && result1 == nil && old(factsHold(q)), wval(rhs) >= 0 && inR(result0, wval(lhs) * pow2(wval(rhs))))
+//@   ensures[facts] unchanged(q.facts) && unchanged(mem(q.facts))
 //@   modifies *q
 
 // proveReasonRequirementForRHSLength (used for "index < length" and "slice bound <=
@@ -298,7 +300,7 @@ package check
 //@   prop C01
 //@   trusted the range of a type is not verified here: framed only (it calls bcheckExpr on constant length and refinement expressions and caches its result on the type node)
 //@   requires q != nil
-//@   ensures implies(result1 == nil, result0[0] != nil && result0[1] != nil)
+//@   ensures implies(result1 == nil, result0[0] != nil && result0[1] != nil && bigval(result0[0]) == tlo(typ) && bigval(result0[1]) == thi(typ))
 //@   ensures unchanged(q.facts) && unchanged(mem(q.facts))
 //@   modifies *q
 
@@ -314,5 +316,19 @@ package check
 //@   requires[wellformed] lhsOf(n) != nil && implies(opOf(n) == t.IDOpenBracket, rhsOf(n) != nil)
 //@   assert@ret#last [index] implies(result1 == nil && old(factsHold(q)) && opOf(n) == t.IDOpenBracket, 0 <= wval(rhsOf(n)) && lengthExpr_1 != nil && wval(rhsOf(n)) < wval(lengthExpr_1))
 //@   assert@ret#last [slice] implies(result1 == nil && old(factsHold(q)) && opOf(n) == t.IDDotDot && (mhsOf(n) != nil || rhsOf(n) != nil), lengthExpr_2 != nil && 0 <= wval(mhs) && wval(mhs) <= wval(rhs_2) && wval(rhs_2) <= wval(lengthExpr_2) && implies(mhsOf(n) != nil, sameobj(mhs, mhsOf(n))) && implies(rhsOf(n) != nil, sameobj(rhs_2, rhsOf(n))))
+//@   ensures unchanged(q.facts) && unchanged(mem(q.facts))
+//@   modifies *q
+
+// bcheckAssignment1: an accepted assignment "lhs op rhs" to a variable of type lTyp
+// stores a value inside lTyp's range: the range computed for the assigned value lies
+// within the type's range, and (for "=") contains rhs's value when the facts are true.
+// Compound assignment operators (+=, <<=, ...) are outside this contract (scope): the
+// finiteness of every range bcheckExprBinaryOp1 can return is not proved.
+//@ func (*checker).bcheckAssignment1
+//@   prop C01
+//@   requires q != nil && rhs != nil && forall(k, 0, len(q.facts), q.facts[k] != nil)
+//@   requires[scope] op == t.IDEq || op == t.IDEqQuestion
+//@   ensures[fits] implies(result1 == nil && lTyp != nil, result0[0] != nil && result0[1] != nil && tlo(lTyp) <= bigval(result0[0]) && bigval(result0[1]) <= thi(lTyp))
+//@   ensures[value] implies(result1 == nil && (op == t.IDEq || op == t.IDEqQuestion) && old(factsHold(q)), inB(result0, wval(rhs)))
 //@   ensures unchanged(q.facts) && unchanged(mem(q.facts))
 //@   modifies *q
